@@ -48,6 +48,7 @@ type target struct {
 	Ret    []string            `json:"ret"`
 	// cond mode: the condition of the Nth `if` (in source order, nested included) whose
 	// condition source contains IfContains.
+	AssignTo   string `json:"assign_to"` // expr mode: RHS of the first assignment to this variable
 	IfContains string `json:"if_contains"`
 	Nth        int    `json:"nth"`
 	// body mode, no explicit return at the end: return these Go expressions.
@@ -1012,6 +1013,20 @@ func translate(repo string, t *target) (def string, err error) {
 		}
 		return fmt.Sprintf("(* %s: %s, condition #%d containing %q:\n   %s *)\n%s : bool :=\n  %s.\n",
 			t.File, t.Func, t.Nth, strings.ReplaceAll(t.IfContains, "(*", "( *"), strings.ReplaceAll(strings.ReplaceAll(src(conds[t.Nth]), "*)", "* )"), "(*", "( *"), head, s), nil
+	case "expr":
+		var rhs ast.Expr
+		ast.Inspect(fd.Body, func(n ast.Node) bool {
+			if as, ok := n.(*ast.AssignStmt); ok && rhs == nil && len(as.Lhs) == 1 && len(as.Rhs) == 1 && src(as.Lhs[0]) == t.AssignTo {
+				rhs = as.Rhs[0]
+			}
+			return true
+		})
+		if rhs == nil {
+			return "", fmt.Errorf("%s: no assignment to %q in %s", t.Name, t.AssignTo, t.Func)
+		}
+		s, ty := x.expr(rhs)
+		return fmt.Sprintf("(* %s: %s, %s := %s *)\n%s : %s :=\n  %s.\n", t.File, t.Func, t.AssignTo,
+			strings.ReplaceAll(strings.ReplaceAll(src(rhs), "*)", "* )"), "(*", "( *"), head, coqTy(ty), s), nil
 	case "body":
 		stmts := fd.Body.List
 		if t.From != "" {
